@@ -31,10 +31,13 @@ type input struct {
 	P    []byte `json:"p"`    // base64 in JSON: arbitrary bytes survive
 	W    []byte `json:"w"`
 	Q    string `json:"q,omitempty"` // P+W Go-quoted, for readers only
+	K    string `json:"k,omitempty"` // which generator stream produced it (distribution tag only)
 }
 
-func mk(rule, p, w string) json.RawMessage {
-	b, _ := json.Marshal(input{Rule: rule, P: []byte(p), W: []byte(w), Q: strconv.Quote(p + w)})
+func mk(rule, p, w string) json.RawMessage { return mkK(rule, p, w, "") }
+
+func mkK(rule, p, w, kind string) json.RawMessage {
+	b, _ := json.Marshal(input{Rule: rule, P: []byte(p), W: []byte(w), Q: strconv.Quote(p + w), K: kind})
 	return b
 }
 
@@ -47,6 +50,7 @@ type side struct {
 	unf   *regexp.Regexp
 	lits  []string // uninflected alternatives without metacharacters
 	pats  []string // the others
+	rules []compiledRule // the ordered suffix rules, compiled the way Rule.Init does
 }
 
 var (
@@ -64,8 +68,8 @@ func loadSides() (map[string]*side, error) {
 			tabErr = err
 			return
 		}
-		build := func(items []Item, unf []string) *side {
-			s := &side{items: items, words: map[string]string{}}
+		build := func(items []Item, unf []string, rules []RuleSrc) *side {
+			s := &side{items: items, words: map[string]string{}, rules: compileRules(rules)}
 			var ws []string
 			for _, it := range items {
 				ws = append(ws, it.Word)
@@ -87,8 +91,8 @@ func loadSides() (map[string]*side, error) {
 			return s
 		}
 		sides = map[string]*side{
-			"plural":   build(t.Plural, t.PluralUninflected),
-			"singular": build(t.Singular, t.SingularUninflected),
+			"plural":   build(t.Plural, t.PluralUninflected, t.PluralRules),
+			"singular": build(t.Singular, t.SingularUninflected, t.SingularRules),
 		}
 	})
 	return sides, tabErr
@@ -196,6 +200,20 @@ func (prop) Generate(r *core.RNG, tier string) []json.RawMessage {
 		{"plural", "", "people"}, {"singular", "my ", "people"}, {"plural", "Node", "Media"}, {"plural", "a\n", "media"},
 		{"plural", "sea ", "bass"}, {"plural", "", "sea-bass"}, {"singular", "", "glaſſ"}, {"plural", "", "\n"}, {"plural", "person", "\n"},
 		{"plural", "per\n", "son"}, {"plural", "x ", "ox"}, {"plural", "the ", "OX"}, {"singular", "a\n", "ss"},
+		// the suffix rules: fold-orbit runes against (?i) literals and classes, runes and invalid bytes against negated
+		// classes and ".", newline, unanchored patterns that match more than once, the "$1s" template, empty matches
+		{"plural", "", "quiz"}, {"plural", "my ", "quiz"}, {"singular", "", "matrices"}, {"singular", "", "MATRICES"},
+		{"singular", "", "taxesfaxes"}, {"singular", "my ", "Taxes waxes"}, {"singular", "", "oxenoxen"}, {"singular", "", "oxens"},
+		{"plural", "", "mouſe"}, {"plural", "", "ſtatus"}, {"singular", "", "ſtatuses"}, {"plural", "", "Kquiz"}, {"singular", "", "menuſ"},
+		{"plural", "", "éy"}, {"plural", "", "\xffy"}, {"plural", "", "\xc3y"}, {"plural", "", "\ny"}, {"plural", "", "y"}, {"plural", "", "quy"},
+		{"plural", "", "hive"}, {"singular", "", "hives"}, {"singular", "", "drives"}, {"singular", "", "\nves"}, {"singular", "", "éves"},
+		{"singular", "a\n", "menus"}, {"singular", "", "menus\n"}, {"singular", "日本 ", "menus"}, {"singular", "", "aliaseses"}, {"singular", "", "aliasESes"},
+		{"singular", "", "virii"}, {"singular", "", "parentheses"}, {"singular", "", "bases"}, {"singular", "a", "bases"}, {"singular", "", "analyses"},
+		{"singular", "x", "analyses"}, {"singular", "", "HOUSES"}, {"singular", "", "houses"}, {"singular", "", "auses"}, {"singular", "", "éuses"},
+		{"singular", "", "bureaus"}, {"singular", "", "BUREAUS"}, {"singular", "", "us"}, {"singular", "", "a\nus"}, {"singular", "", "S"}, {"singular", "", "ſ"},
+		{"plural", "", "s"}, {"plural", "", "S"}, {"plural", "", "ſ"}, {"plural", "", "wolf"}, {"plural", "", "ſafe"}, {"plural", "", "fe"}, {"plural", "", "ffe"},
+		{"plural", "", "|ouse"}, {"plural", "", "m|louse"}, {"plural", "", "\xf0\x9f\x98y"}, {"plural", "", "\xed\xa0\x80y"}, {"plural", "", "\xf4\x90\x80\x80y"},
+		{"plural", "", "\xe0\x80\x80y"}, {"plural", "", "\xc0\x80y"}, {"plural", "", "😀y"}, {"plural", "", "\xef\xbf\xbdy"},
 	} {
 		out = append(out, mk(c[0], c[1], c[2]))
 	}
@@ -207,9 +225,36 @@ func (prop) Generate(r *core.RNG, tier string) []json.RawMessage {
 			}
 		}
 	}
-	n := 4000
+	// the ordered suffix rules: two plain instances of every rule's pattern, then the words of the repository's test tables
+	for _, rule := range rules {
+		for _, c := range sd[rule].rules {
+			for i := 0; i < 2 && c.tree != nil; i++ {
+				var b strings.Builder
+				instance(r, c.tree, &b, true)
+				out = append(out, mkK(rule, "", core.Pick(r, wordStems)+b.String(), "rule-match"))
+			}
+		}
+	}
+	for _, w := range testWords(repoDir()) {
+		for _, rule := range rules {
+			out = append(out, mkK(rule, "", w, "test-table-word"))
+		}
+		out = append(out, mkK(core.Pick(r, rules), core.Pick(r, prefixes), w, "test-table-word"), mkK(core.Pick(r, rules), "", strings.ToUpper(w), "test-table-word"))
+	}
+	n, nr := 4000, 3500
 	if tier == "thorough" {
-		n = 40000
+		n, nr = 40000, 40000
+	}
+	for i := 0; i < nr; i++ {
+		rule := core.Pick(r, rules)
+		if len(sd[rule].rules) == 0 {
+			continue
+		}
+		p, w, kind := ruleInput(r, core.Pick(r, sd[rule].rules))
+		if r.Chance(8) { // the other function on the same word
+			rule = rules[1-indexOf(rules, rule)]
+		}
+		out = append(out, mkK(rule, p, w, kind))
 	}
 	for i := 0; i < n; i++ {
 		rule := core.Pick(r, rules)
@@ -477,6 +522,21 @@ func (prop) Run(in json.RawMessage, _ string) core.Result {
 		branch = "uninflected"
 	}
 	res.Tags = append(res.Tags, rule, "branch="+branch)
+	fired := -1
+	if branch == "suffix" || branch == "irregular-miss" {
+		fired = firstRule(sdr.rules, s)
+		if fired < 0 {
+			res.Tags = append(res.Tags, "suffix-rule=none")
+		} else {
+			res.Tags = append(res.Tags, fmt.Sprintf("suffix-rule=%s#%02d", rule, fired))
+			if loc := sdr.rules[fired].re.FindAllStringIndex(s, -1); len(loc) > 1 {
+				res.Tags = append(res.Tags, "suffix-rule-matches>1")
+			}
+		}
+	}
+	if inp.K != "" {
+		res.Tags = append(res.Tags, "gen="+inp.K)
+	}
 	lw, letters := asciiLowerWord(w)
 	_, isIrr := sdr.words[lw]
 	isIrr = isIrr && letters
@@ -517,7 +577,8 @@ func (prop) Run(in json.RawMessage, _ string) core.Result {
 	if strings.Contains(s, "ſ") || strings.Contains(s, "K") {
 		res.Tags = append(res.Tags, "fold_orbit_char")
 	}
-	res.Nontrivial = branch != "suffix" || !isASCII(s) || strings.Contains(s, "\n")
+	// trivial = plain ASCII one-line text that only the final catch-all rule (or none) rewrites
+	res.Nontrivial = branch != "suffix" || !isASCII(s) || strings.Contains(s, "\n") || (fired >= 0 && fired < len(sdr.rules)-1)
 	return res
 }
 
